@@ -124,6 +124,7 @@ def gen_spec(seed, profile="core", variant=None, templates=None):
     template = rng.choice([t for t in (templates or ()) if t != "twin"] or ("line", "line", "line", "diamond", "pack", "packunpack", "multisink", "fanin", "splitline", "mesh", "rework", "packpack"))
     item_len = rng.choice((1, 1, 0.5))
     nodes, conns = [], []
+    force, edge_force = {}, {}
 
     def src(nid, ftype="item", fast=False):
         blocking = rng.random() < 0.6
@@ -303,7 +304,26 @@ def gen_spec(seed, profile="core", variant=None, templates=None):
                     sink("K1")
                     conn("M9", "K1")
             sink("K0")
-            conn(last, "K0", rng.choice((1, 1, 2)))
+            if last == "C0" and rng.random() < 0.5:
+                # the combiner itself chooses between two busy consumers (two out-edges that fill up and free again)
+                machine("M7")
+                machine("M8")
+                conn("C0", "M7")
+                conn("C0", "M8")
+                conn("M7", "K0")
+                conn("M8", "K0")
+                if rng.random() < 0.6:
+                    # commensurate consumers behind one-place buffers: both out-edges regularly free up in the same instant
+                    force[px + "C0"] = {"blocking": True, "out_sel": "FIRST_AVAILABLE", "delay": {"kind": "const", "seq": [rng.choice((0.25, 0.5))]}}
+                    # different in-policies = a different number of event hops between "worker free" and "next pull": the two
+                    # out-edges of the combiner get room in the same instant but one or two kernel events apart
+                    pols = rng.choice((("FIRST_AVAILABLE", "ROUND_ROBIN"), ("ROUND_ROBIN", "FIRST_AVAILABLE"), ("FIRST_AVAILABLE", "FIRST_AVAILABLE")))
+                    force[px + "M7"] = {"delay": {"kind": "const", "seq": [rng.choice((1, 1.5, 2))]}, "wc": 1, "in_sel": pols[0], "setup": 0}
+                    force[px + "M8"] = {"delay": {"kind": "const", "seq": [rng.choice((0.5, 1, 1.5))]}, "wc": 1, "in_sel": pols[1], "setup": 0}
+                    for b_ in ("M7", "M8"):
+                        edge_force[(px + "C0", px + b_)] = {"type": "buffer_fifo", "capacity": 1, "delay": {"kind": "const", "seq": [0]}, "mode": "FIFO"}
+            else:
+                conn(last, "K0", rng.choice((1, 1, 2)))
     # degrees
     byid = {n["id"]: n for n in nodes}
     outdeg = {n["id"]: 0 for n in nodes}
@@ -318,6 +338,9 @@ def gen_spec(seed, profile="core", variant=None, templates=None):
             n["in_sel"] = rnd_policy(rng, indeg[n["id"]])
             if variant == "finite" and indeg[n["id"]] > 1 and rng.random() < 0.7:
                 n["in_sel"] = "FIRST_AVAILABLE"
+    for n in nodes:
+        if n["id"] in force:
+            n.update(force[n["id"]])
     edges = []
     k_id = 0
     for a, b, k in conns:
@@ -328,6 +351,8 @@ def gen_spec(seed, profile="core", variant=None, templates=None):
             if profile == "restricted" and sb["type"] == "sink" and e["type"] in ("conv", "slotconv"):
                 e = {"id": e["id"], "type": "buffer_fifo", "capacity": rng.choice((1, 2, 3)),
                      "delay": rnd_delay_desc(rng, (0, 0.5)), "mode": "FIFO"}
+            if (a, b) in edge_force:
+                e = dict(edge_force[(a, b)], id=e["id"])
             e["src"], e["dst"] = a, b
             edges.append(e)
             k_id += 1
